@@ -26,6 +26,8 @@ def generate(r, tier, build):
         kk, c, st, N = GC.key(r), GC.counter(r), GC.stream(r), GC.rounds(r)
         ops = ["fill:%d" % r.choice([252, 248, 250, 253, 255, 256, r.below(260)])] + [r.choice(["f32", "f64", "f64", "u32", "u64"]) for _ in range(r.range(1, 5))]
         reqs.append("chacha n=%d key=%s ctr=%d str=%d ops=%s" % (N, ",".join(map(str, kk)), c, st, ",".join(ops)))
+    # Float01 (`Random::float01`) and the unit floats drawn from a real block generator at every kind of buffer position
+    reqs += GC.dist_histories(r, 120 * k, lambda r: r.choice(["f01", "f01", "f64", "f32"]))
     # Xoshiro256 with injected states whose raw word (xoshiro256+: s0 + s3) has a chosen mantissa field: all zero (exactly 1.0), all ones, single bits, random
     for _ in range(300 * k):
         op = r.choice(["f32", "f64"])
@@ -63,6 +65,9 @@ def oracle(req, impl, build):
     if req.startswith("word") or req.startswith("chacha"):
         ops = req.split("ops=")[1].split()[0].split(",") if "ops=" in req else []
         toks = impl.split()
+        for i, tok in enumerate(toks):
+            if tok.startswith("z:") and not (0 < int(tok[2:]) < 0x3FF0000000000000):
+                return "op %d (float01 on a real generator) returned bits 0x%x: not strictly inside (0, 1)" % (i, int(tok[2:]))
         for i, tok in enumerate(toks):
             if tok.startswith("f:"):
                 v = int(tok[2:])
